@@ -70,7 +70,7 @@ class Driver:
         return out
 
     def canon(self, world):
-        c = explorer.canon_world(world, "full")
+        c = explorer.canon_world(world, "full", refcounts=True)
         cands = tuple(sorted(len(world.alloc.reuse_candidates()) for _ in (0,)))
         return (c, cands, world.extra["dev"])
 
@@ -128,6 +128,7 @@ class Driver:
                 ev.append(("w_empty", i))
         for i in range(len(sl)):
             ev.append(("drop", i))
+            ev.append(("dropc", i))         # drop and collect at once (what reference counting does)
         if world.limbo:
             ev.append(("collect",))
         return ev
@@ -197,7 +198,7 @@ class Driver:
                 thunk()
                 raised = None
             except Exception as e:
-                raised = e
+                raised = explorer.detach(e)
             out = Outcome(raised=raised)
             out.note = {"sharers": len(sharers), "alias_error": isinstance(raised, AliasError)}
             if raised is None:
@@ -316,6 +317,10 @@ class Driver:
                 world.limbo.append(s.obj)
                 world.extra.setdefault("limbo_slots", []).append(s)
                 return Outcome(readonly=True)
+            if op == "dropc":
+                s = sl.pop(ev[1])
+                del s
+                return Outcome(readonly=True)
             if op == "collect":
                 world.limbo.clear()
                 world.extra["limbo_slots"] = []
@@ -353,7 +358,7 @@ class Driver:
         else:
             agg.outcomes["other-event"] += 1
         # nothing outside the target set changes; a refused write changes nothing at all
-        if op in ("drop", "t_slice", "t_mask", "rshift_tdict"):
+        if op in ("drop", "dropc", "t_slice", "t_mask", "rshift_tdict"):
             return
         post = self.snapshot(world)
         for i in range(min(len(pre), len(post))):
